@@ -22,7 +22,8 @@ COMPONENTS = {
 
 def gen_case(tp, tier):
     feat = {'tempo_clocks': True, 'init_beats': tp.draw(2) == 0,
-            'odd_deltas': tp.draw(2) == 0, 'app': tp.draw(5) == 0}
+            'odd_deltas': tp.draw(2) == 0, 'app': tp.draw(5) == 0,
+            'embed': True}
     prog = rprog.gen(tp, feat, tier)
     ff = C.gen_knobs(tp, fault_free_pm=1000)
     k1 = C.gen_knobs(tp, fault_free_pm=0)
@@ -147,6 +148,10 @@ def run_case(case, tape, ctx):
     prog = case['prog']
     viol = C.Violations()
     stats = {}
+    ne = sum(1 for r in case['prog']['routines'] for st in r['body']
+             if st[0] == 'embed')
+    if ne:
+        stats['embedded-routines'] = ne
     model = rprog.Model(prog).run()
     has_app = any(r['clock'] == 'app' and r['body']
                   for r in prog['routines'])
